@@ -166,7 +166,8 @@ class ApproximationScheme(object):
                             rng = np.arange(start, stop)[cinds]
                         else:
                             rng = range(start, stop)
-                        wrt_ranges.append((abs_wrt, stop - start))
+                        # the colored columns of this variable are only the selected indices
+                        wrt_ranges.append((abs_wrt, cend - cstart))
                         ccol2outvec[colored_start:colored_end] = rng
                     colored_start = colored_end
 
